@@ -79,6 +79,8 @@ def uniform_binning(ts, bins):
         The discretized time-series.
     """
     symb = np.asarray(bins * (ts - ts.min()) / (ts.max() - ts.min() + 1e-12), dtype=int)
+    # for large ranges the 1e-12 is lost to rounding and the maximum would get label `bins`
+    symb = np.minimum(symb, bins - 1)
     return symb
 
 
